@@ -12,8 +12,12 @@ import FV.Proofs.Wrap
     `evalNodeD S σ id`     the Boolean function of ROBDD node `id`
     `Post`, `Post.holds`, `Post.WF`, `Mgr.post`   a posted constraint, its meaning, well-formedness (user variables;
                            inequalities as built by the `Expr` algebra, cf. C16 `normal_form`), the posting method
-    `Run m S ps m' S'`     a history of one manager: `ps` are the accepted constraints, other managers may grow the
-                           shared store in between, refused constraints leave no trace
+    `Run m S ps m' S'`     a history of one manager: `ps` are the accepted constraints, `newvar` registers variable
+                           names at any point, other managers may grow the shared store in between, refused
+                           constraints leave no trace.  NB posting registers nothing (as in the Python, where every
+                           literal comes from `newvar`): `solve()` raises `KeyError` on a literal never registered,
+                           so the histories to which `solve_sound` applies are those with `newvar` steps —
+                           see the scenario at the end of the file (`Scenario.*`) for a concrete one.
     `SolverOK cnf ans`     the assumption on the SAT solver's answer
 -/
 namespace FV.C07
@@ -167,20 +171,32 @@ theorem refused_only {S : Store Var} {m : Mgr} {ps : List Post} (h : MInv S m ps
 /-- the empty manager over any well-formed store encodes the empty list of constraints -/
 theorem history_start {S : Store Var} (hw : WFStore S) : MInv S {} [] := minv_init hw
 
-/-- Any posting sequence — clauses, implications, pairwise and chained at-most-one groups, pseudo-Boolean
-    inequalities under either construction, refused constraints in between, other managers growing the shared store
-    at any point: an assignment `σ` of the user variables extends to a model of the accumulated CNF iff `σ`
-    satisfies every accepted constraint. -/
-theorem post_history_exact {S0 : Store Var} (hw : WFStore S0) {ps : List Post} {m' : Mgr} {S' : Store Var}
-    (r : Run {} S0 ps m' S') (hps : ∀ p ∈ ps, p.WF) (σ : Var → Bool) :
+/-- so does a manager that has only registered variables so far (what `rect.py` does first: `sm.newvar(...)`) -/
+theorem history_start_registered {S : Store Var} (hw : WFStore S) (m0 : Mgr) (hc : m0.clauses = [])
+    (hd : m0.codified = []) : MInv S m0 [] := minv_registered hw m0 hc hd
+
+/-- Any posting sequence from a manager that has registered any variables but posted nothing — clauses,
+    implications, pairwise and chained at-most-one groups, pseudo-Boolean inequalities under either construction,
+    further `newvar` calls and refused constraints in between, other managers growing the shared store at any point:
+    an assignment `σ` of the user variables extends to a model of the accumulated CNF iff `σ` satisfies every
+    accepted constraint. -/
+theorem post_history_exact_from {S0 : Store Var} (hw : WFStore S0) (m0 : Mgr) (hc : m0.clauses = [])
+    (hd : m0.codified = []) {ps : List Post} {m' : Mgr} {S' : Store Var}
+    (r : Run m0 S0 ps m' S') (hps : ∀ p ∈ ps, p.WF) (σ : Var → Bool) :
     (∃ τ, (∀ v, isUser v → τ v = σ v) ∧ cnfTrue τ m'.clauses) ↔ ∀ p ∈ ps, p.holds σ := by
-  have inv : MInv S' m' ps := by simpa using minv_run r [] (minv_init hw) hps
+  have inv : MInv S' m' ps := by simpa using minv_run r [] (minv_registered hw m0 hc hd) hps
   constructor
   · rintro ⟨τ, hag, hτ⟩ p hp
     exact (holds_congr (hps p hp) hag).1 (inv.sound τ hτ p hp)
   · intro hσ
     obtain ⟨τ, h1, _, h3⟩ := inv.complete σ hσ
     exact ⟨τ, h1, h3⟩
+
+/-- the same from the empty manager (`SATManager()`); `Run` contains the `newvar` calls -/
+theorem post_history_exact {S0 : Store Var} (hw : WFStore S0) {ps : List Post} {m' : Mgr} {S' : Store Var}
+    (r : Run {} S0 ps m' S') (hps : ∀ p ∈ ps, p.WF) (σ : Var → Bool) :
+    (∃ τ, (∀ v, isUser v → τ v = σ v) ∧ cnfTrue τ m'.clauses) ↔ ∀ p ∈ ps, p.holds σ :=
+  post_history_exact_from hw {} rfl rfl r hps σ
 
 /-- what the `grow` steps of `Run` stand for: an accepted posting by any other manager, in whatever state, keeps the
     shared store well formed and only appends to it -/
@@ -193,16 +209,19 @@ theorem post_step_exact {S S' : Store Var} {m m' : Mgr} {ps : List Post} (h : MI
 
 /-! ### solving -/
 
-/-- Assuming the SAT solver is correct (`SolverOK`): after any history, `solve()` reports satisfiable iff some
-    assignment satisfies every accepted constraint, and then the values exposed by `value` are those of an
-    assignment `τ` that satisfies every accepted constraint (for every registered variable and both polarities). -/
-theorem solve_sound {S0 : Store Var} (hw : WFStore S0) {ps : List Post} {m : Mgr} {S : Store Var}
-    (r : Run {} S0 ps m S) (hps : ∀ p ∈ ps, p.WF) {cnf : List (List Int)} (hcnf : m.cnf = .ok cnf)
+/-- Assuming the SAT solver is correct (`SolverOK`): after any history of a manager that started by registering
+    variables (duplicate-free table, nothing posted), with every literal that reached a clause registered
+    (`m.cnf = .ok cnf`; otherwise `solve()` raises, `solve_unregistered`): `solve()` reports satisfiable iff some
+    assignment satisfies every accepted constraint, and then the values exposed by `value` are those of an assignment
+    `τ` that satisfies every accepted constraint (for every registered variable and both polarities). -/
+theorem solve_sound_from {S0 : Store Var} (hw : WFStore S0) (m0 : Mgr) (hc : m0.clauses = []) (hd : m0.codified = [])
+    (hnd0 : m0.vars.Nodup) {ps : List Post} {m : Mgr} {S : Store Var}
+    (r : Run m0 S0 ps m S) (hps : ∀ p ∈ ps, p.WF) {cnf : List (List Int)} (hcnf : m.cnf = .ok cnf)
     {ans : Option (List Int)} (hsolver : SolverOK cnf ans) {b : Bool} {m' : Mgr} (hs : m.solve ans = .ok (b, m')) :
     (b = true ↔ ∃ σ, ∀ p ∈ ps, p.holds σ) ∧
     (b = true → ∃ τ, (∀ p ∈ ps, p.holds τ) ∧ ∀ v ∈ m.vars, ∀ s, m'.value ⟨v, s⟩ = some (litVal τ ⟨v, s⟩)) := by
-  have inv : MInv S m ps := by simpa using minv_run r [] (minv_init hw) hps
-  have hnd : m.vars.Nodup := run_nodup r (by simp)
+  have inv : MInv S m ps := by simpa using minv_run r [] (minv_registered hw m0 hc hd) hps
+  have hnd : m.vars.Nodup := run_nodup r hnd0
   obtain ⟨h1, h2⟩ := solve_spec hnd hcnf hsolver hs
   constructor
   · rw [h1]
@@ -214,6 +233,41 @@ theorem solve_sound {S0 : Store Var} (hw : WFStore S0) {ps : List Post} {m : Mgr
   · intro hb
     obtain ⟨τ, hτ, hval⟩ := h2 hb
     exact ⟨τ, inv.sound τ hτ, hval⟩
+
+/-- the same from the empty manager; the `newvar` calls are steps of `Run` -/
+theorem solve_sound {S0 : Store Var} (hw : WFStore S0) {ps : List Post} {m : Mgr} {S : Store Var}
+    (r : Run {} S0 ps m S) (hps : ∀ p ∈ ps, p.WF) {cnf : List (List Int)} (hcnf : m.cnf = .ok cnf)
+    {ans : Option (List Int)} (hsolver : SolverOK cnf ans) {b : Bool} {m' : Mgr} (hs : m.solve ans = .ok (b, m')) :
+    (b = true ↔ ∃ σ, ∀ p ∈ ps, p.holds σ) ∧
+    (b = true → ∃ τ, (∀ p ∈ ps, p.holds τ) ∧ ∀ v ∈ m.vars, ∀ s, m'.value ⟨v, s⟩ = some (litVal τ ⟨v, s⟩)) :=
+  solve_sound_from hw {} rfl rfl (by simp) r hps hcnf hsolver hs
+
+/-- `solve()` does not raise once every variable occurring in a clause is registered -/
+theorem cnf_ok_of_registered (m : Mgr) (h : ∀ c ∈ m.clauses, ∀ x ∈ c, x.v ∈ m.vars) : ∃ cnf, m.cnf = .ok cnf := by
+  have lit : ∀ c : Clause, (∀ x ∈ c, x.v ∈ m.vars) → ∃ c', c.mapM m.litInt = .ok c' := by
+    intro c
+    induction c with
+    | nil => intro _; exact ⟨[], rfl⟩
+    | cons x r ih =>
+      intro hc
+      obtain ⟨i, hi⟩ := lookupIdx_mem (k := 1) (hc x (by simp))
+      obtain ⟨r', hr'⟩ := ih (fun y hy => hc y (by simp [hy]))
+      refine ⟨(if x.s = false then -(i : Int) else (i : Int)) :: r', ?_⟩
+      rw [List.mapM_cons]
+      simp [Mgr.litInt, Mgr.index, hi, hr', bind, Except.bind, pure, Except.pure]
+  have all : ∀ cs : List Clause, (∀ c ∈ cs, ∀ x ∈ c, x.v ∈ m.vars) →
+      ∃ cnf, cs.mapM (fun c => c.mapM m.litInt) = .ok cnf := by
+    intro cs
+    induction cs with
+    | nil => intro _; exact ⟨[], rfl⟩
+    | cons c r ih =>
+      intro hcs
+      obtain ⟨c', hc'⟩ := lit c (hcs c (by simp))
+      obtain ⟨r', hr'⟩ := ih (fun d hd => hcs d (by simp [hd]))
+      refine ⟨c' :: r', ?_⟩
+      rw [List.mapM_cons]
+      simp [hc', hr', bind, Except.bind, pure, Except.pure]
+  exact all m.clauses h
 
 /-- `evalexpr` on the exposed model is the value of the expression under that model -/
 theorem evalExpr_value (m : Mgr) (τ : Var → Bool) (e : Expr Var)
@@ -265,5 +319,108 @@ example : (({} : Mgr).pseudoBool Store.init
     (Ineq.make (((⟨0, []⟩ : Expr Var).add (.lit x)).add (.lit y)) ⟨1, []⟩ .eq) false) matches .error .exception := by
   decide
 end Examples
+
+/-! ### a concrete history satisfying every hypothesis used above
+  `SATManager()`; `newvar` for x, y, z, w; `pseudoboolencoding(2x + 3y + 2¬z ≥ 4)` (ROBDD + Tseitin);
+  `heuleencoding([x, y, z, w], 3)` (one auxiliary); `solve()` with the model Minisat22 returned for exactly this
+  history on the real classes. -/
+namespace Scenario
+def w : Lit := ⟨.user "def_w", true⟩
+def vars : List Var := [.user "def_x", .user "def_y", .user "def_z", .user "def_w"]
+def posts : List Post := [.pb q1 false, .amoH 3 [x, y, z, w], .amoH 2 [x, y]]
+def m0 : Mgr := registerAll {} vars
+def fin : Mgr × Store Var × List Post := execPosts m0 Store.init posts
+/-- what `Solver.get_model()` answered -/
+def ans : List Int := [-1, 2, -3, -4, 5, 6, 7, 8, -9, -10, -11]
+
+/-- the history is a `Run` from the empty manager -/
+theorem run : Run {} Store.init fin.2.2 fin.1 fin.2.1 := run_registerAll vars (run_execPosts posts m0 Store.init)
+
+/-- two constraints are accepted (the last one, chain width 2, is refused), 17 clauses, 6 store nodes, 11 variables -/
+example : (fin.2.2.length, fin.1.clauses.length, fin.2.1.memory.length, fin.1.vars.length, fin.1.auxcount)
+    = (2, 17, 6, 11, 1) := by decide +kernel
+
+theorem q1_wf (dec : Bool) : (Post.pb q1 dec).WF := by
+  refine built_ineq_wf .ge dec ?_ nf_empty ?_ (by simp)
+  · exact Expr.nf_add _ (Expr.nf_add _ (Expr.nf_add _ nf_empty))
+  · have : ∀ t' ∈ (((((⟨0, []⟩ : Expr Var).add (.term ⟨x, 2⟩)).add (.term ⟨y, 3⟩)).add (.term ⟨z.neg, 2⟩))).t,
+        t'.L.v = Var.user "def_x" ∨ t'.L.v = Var.user "def_y" ∨ t'.L.v = Var.user "def_z" := by decide
+    intro t ht
+    rcases this t ht with h | h | h <;> rw [h] <;> trivial
+
+theorem posts_wf : ∀ p ∈ fin.2.2, p.WF := by
+  intro p hp
+  have hp' := execPosts_subset posts m0 Store.init p hp
+  simp only [posts, List.mem_cons, List.mem_nil_iff, or_false] at hp'
+  rcases hp' with rfl | rfl | rfl
+  · exact q1_wf false
+  · intro l hl
+    simp only [List.mem_cons, List.mem_nil_iff, or_false] at hl
+    rcases hl with rfl | rfl | rfl | rfl <;> trivial
+  · intro l hl
+    simp only [List.mem_cons, List.mem_nil_iff, or_false] at hl
+    rcases hl with rfl | rfl <;> trivial
+
+/-- every literal of every clause is registered: `solve()` does not raise -/
+theorem cnf_ok : ∃ cnf, fin.1.cnf = .ok cnf ∧ SolverOK cnf (some ans) ∧ ∃ m', fin.1.solve (some ans) = .ok (true, m') := by
+  have h : (match fin.1.cnf with
+      | .ok cnf => decide ((∀ c ∈ cnf, ∃ x ∈ c, x ∈ ans) ∧ (∀ x ∈ ans, x ≠ 0 ∧ -x ∉ ans))
+      | .error _ => false) = true := by decide +kernel
+  cases hc : fin.1.cnf with
+  | error e => rw [hc] at h; simp at h
+  | ok cnf =>
+    rw [hc] at h
+    refine ⟨cnf, rfl, by simpa [SolverOK] using h, ?_⟩
+    simp [Mgr.solve, hc]
+
+/-- `post_history_exact`, `solve_sound` and their `_from` forms apply to this history: all hypotheses hold at once,
+    and the conclusion says something: the constraints are satisfiable and `value` exposes a satisfying assignment -/
+example : ∃ τ, (∀ p ∈ fin.2.2, p.holds τ) ∧ ∀ v ∈ fin.1.vars, ∀ s, ∃ m', fin.1.solve (some ans) = .ok (true, m') ∧
+    m'.value ⟨v, s⟩ = some (litVal τ ⟨v, s⟩) := by
+  obtain ⟨cnf, hcnf, hsolver, m', hs⟩ := cnf_ok
+  obtain ⟨τ, hτ, hval⟩ := (solve_sound store_init_wf run posts_wf hcnf hsolver hs).2 rfl
+  exact ⟨τ, hτ, fun v hv s => ⟨m', hs, hval v hv s⟩⟩
+
+example (σ : Var → Bool) :
+    (∃ τ, (∀ v, isUser v → τ v = σ v) ∧ cnfTrue τ fin.1.clauses) ↔ ∀ p ∈ fin.2.2, p.holds σ :=
+  post_history_exact store_init_wf run posts_wf σ
+
+example (σ : Var → Bool) :
+    (∃ τ, (∀ v, isUser v → τ v = σ v) ∧ cnfTrue τ fin.1.clauses) ↔ ∀ p ∈ fin.2.2, p.holds σ :=
+  post_history_exact_from store_init_wf m0 (by decide) (by decide) (run_execPosts posts m0 Store.init) posts_wf σ
+
+/-- the exposed model: x = 0, y = 1, z = 0, w = 0, and `evalexpr(2x + 3y + 2¬z)` = 5 -/
+example : (match fin.1.solve (some ans) with
+    | .ok (b, m') => (b, m'.value x, m'.value y, m'.value z, m'.value w.neg, m'.evalExpr q1.lhs)
+    | .error _ => (false, none, none, none, none, none)) = (true, some 0, some 1, some 0, some 1, some 5) := by
+  decide +kernel
+
+/-- without the `newvar` calls the same postings make `solve()` raise (`solve_unregistered` applies) -/
+example : (match (execPosts {} Store.init [.amoH 3 [x, y, z, w]]).1.solve none with
+    | .error .keyError => true | _ => false) = true := by decide +kernel
+
+/-- hypotheses of `heule_exact`, `store_getRobdd_wf` / `getRobdd_sem`, `codify_exact`, `isClause_exact`,
+    `encoding_exact_or_refused` / `encoding_ge_accepted`, `refused_only`, `built_ineq_wf` on concrete data -/
+example : auxOK 0 [x, y, z, w] := by
+  intro l hl a ha
+  simp only [List.mem_cons, List.mem_nil_iff, or_false] at hl
+  rcases hl with rfl | rfl | rfl | rfl <;> simp [x, y, z, w] at ha
+
+example : ∃ id S', q1.getRobdd false Store.init = .ok (id, S') ∧ WFStore S' ∧ id < S'.size ∧ VarsOK S' isUser id := by
+  obtain ⟨id, S', hg, w', _, s, _⟩ := getRobdd_spec q1 false Store.init store_init_wf (q1_wf false).1.1 rfl
+  exact ⟨id, S', hg, w', s, getRobdd_vars q1 false Store.init store_init_wf (q1_wf false).1.1 isUser (q1_wf false).2.2 hg⟩
+
+example : (∀ t ∈ q1.lhs.t, 0 < t.c) ∧ q1.lhs.c = 0 ∧ q1.op = .ge := ⟨(q1_wf false).1.1, (q1_wf false).2.1, rfl⟩
+
+example : ∃ m' S', ({} : Mgr).pseudoBool Store.init q1 true = .ok (m', S') ∧ MInv S' m' [.pb q1 true] := by
+  rcases encoding_exact_or_refused (history_start store_init_wf) q1 true (q1_wf true) with ⟨e, he⟩ | h
+  · obtain ⟨m', S', hok⟩ := encoding_ge_accepted (history_start store_init_wf) q1 true (q1_wf true) rfl
+    rw [hok] at he; simp at he
+  · simpa using h
+
+example : ∃ e, ({} : Mgr).post Store.init (.amoH 2 [x, y]) = .error e := ⟨.exception, rfl⟩
+end Scenario
+
+
 
 end FV.C07
